@@ -120,23 +120,36 @@ PROVED = [
     '<=> O has no over-order of index p^k with k > 0 (the usual wording); all_p_maximal_maximal: p-maximal at every prime => index 1 or -1 '
     'in every over-order, which has the same lattice',
     '[C] find_integral_basis_maximal_partial / find_integral_basis_p_maximal_partial: the driver theorems for ANY f with non-zero leading '
-    'coefficient, PROVIDED the starting order is computed and closed under multiplication (flag computed by the model; proved for monic f)',
+    'coefficient, PROVIDED the starting order is computed and closed under multiplication (flag computed by the model; proved for monic f; '
+    'fifth wave: the flag holds for every f, see non_monic_start_is_order)',
+    # ---- fifth wave
+    '[P] non_monic_start_is_order / non_monic_start_table / non_monic_flag (Dedekind): for EVERY f = a_n x^n + .. + a_0 of degree n >= 1 with '
+    'a_n != 0 (canonical coefficient list; any sign, not necessarily primitive, irreducible or squarefree) non_monic_initial_order returns '
+    '(generator matrix 1, w_1, .., w_(n-1), w_i = a_n x^i + .. + a_(n-i+1) x, lower triangular with diagonal 1, a_n, .., a_n: det_trig) and the '
+    'stored basis is an order (is_order: stored basis, contains 1, Order::get_mult_table returns on it: all products have integer coordinates). '
+    'Proof: with b_u = a_(n-u), D_k = b_0 x^k + .. + b_(k-1) x, the identity D_i D_j = sum_(u<i) b_u D_(i+j-u) - sum_(v<i) b_(j+v) D_(i-v) holds in '
+    'every commutative ring (Round2W5Ident.DP_mul, induction on i with D_(k+1) = x D_k + b_k x); w_k = D_k (k < n), D_n = f - a_0, '
+    'D_k = x^(k-n) f (k > n), so modulo f each w_i w_j is an integer combination of 1, w_1, .., w_(n-1); hnf_reduce keeps the lattice; '
+    'dedekind_generators_table: get_mult_table also returns on the generator rows themselves (before hnf_reduce)',
+    '[P] find_integral_basis_order (the statement of find_integral_basis_order_partial without its flag, any f with non-zero leading '
+    'coefficient, degree >= 1, both profiles): the starting order is computed and is an order; a returning driver returns an order; every panic '
+    'of the driver is a panic of o.discriminant(theta), of the trial factorisation (discriminant 0) or the u64 overflow of e -= 2*howmany -- no '
+    'panic of non_monic_initial_order and no panic inside one_step is reachable',
+    '[P] find_integral_basis_no_panic / find_integral_basis_p_maximal_all / find_integral_basis_maximal_all: the fourth-wave driver theorems '
+    'WITHOUT the hypothesis "f monic": for every f of degree deg >= 1 (2 deg < 2^64) with non-zero leading coefficient whose starting order has a '
+    'non-zero discriminant of fewer than 2^64 bits, in both build profiles find_integral_basis returns (no panic, enough fuel) an order that is '
+    'p-maximal at every prime and is the maximal order (index 1 or -1 in every over-order, which has the same lattice)',
 ]
 NOT_PROVED = [
-    'maximality of the result for NON-MONIC f (all the fourth-wave theorems about the Round 2 step hold for any f with non-zero leading '
-    'coefficient and any order; only the driver theorems find_integral_basis_no_panic_monic / _p_maximal / _maximal assume f monic, because '
-    'the starting order of a non-monic f is not proved to be a ring)',
     'that the discriminant of the returned order equals the field discriminant as defined through embeddings / that the maximal order is the '
     'integral closure of Z in Q[x]/(f) (no notion of integral element in the development; maximality is stated as: no strictly larger '
     'lattice closed under multiplication, which characterises the ring of integers when f is irreducible)',
-    'that the starting order Z[theta] cap Z[1/theta] of a NON-MONIC f is closed under multiplication (the flag of '
-    'find_integral_basis_order_partial; proved for monic f: find_integral_basis_order_monic); for non-monic f the absence of panics of the '
-    'driver is therefore conditional on that flag',
     'independence of the generator (theta + k, -theta, c*theta, 1/theta give the same discriminant)',
     'inside one_step only the assertions of the table construction (expect on solve_linear_system, is_integer) are reachable, and only '
     'on inputs that are not orders (w3_not_a_ring); on orders the step is proved panic-free (order_step_returns)',
-    'inputs whose discriminant has 2^64 bits or more (the u64 exponents of the factorisation would not fit) are excluded from '
-    'find_integral_basis_no_panic_monic by hypothesis',
+    'inputs whose discriminant is 0 (f not squarefree: trial_factorize panics on its assert) or has 2^64 bits or more (the u64 exponents of '
+    'the factorisation would not fit) are excluded from find_integral_basis_no_panic / _p_maximal_all / _maximal_all by hypothesis; so is '
+    '2 deg >= 2^64',
 ]
 ASSUMPTIONS = ['num::integer::lcm on BigInt taken as Z.lcm (non-negative)',
                'one_step is reached through the feature-gated access wrapper integral_basis::verif::one_step of /repo (module round2 is private)']
@@ -144,9 +157,11 @@ ASSUMPTIONS = ['num::integer::lcm on BigInt taken as Z.lcm (non-negative)',
 CLAIM = dict(
     technique='Coq proof about the Gallina model of find_integral_basis / round2::one_step + extracted-model-vs-implementation correspondence '
               '+ independent maximality oracle on every explored input',
-    text='Proved for all inputs about the model (coq/Props/C06.v, 62 theorems, closed under the global context). Fourth wave: the Pohst-Zassenhaus '
+    text='Proved for all inputs about the model (coq/Props/C06.v, 70 theorems, closed under the global context). Fifth wave: Dedekind\'s lemma -- the '
+         'starting order Z[theta] cap Z[1/theta] of EVERY f of degree >= 1 with non-zero leading coefficient is computed and is an order (closed under '
+         'multiplication: get_mult_table returns on it), so all driver theorems hold for monic and non-monic f alike, without any flag. Fourth wave: the Pohst-Zassenhaus '
          'theorem for the model (one_step on an order at a prime returns howmany = 0 iff the order is p-maximal), no u64 underflow of the exponent '
-         'bookkeeping, and for every monic f with non-zero discriminant (fewer than 2^64 bits, 2 deg < 2^64), in both build profiles: '
+         'bookkeeping, and for every f (monic or not, non-zero leading coefficient) whose starting order has non-zero discriminant (fewer than 2^64 bits, 2 deg < 2^64), in both build profiles: '
          'find_integral_basis returns (no panic, enough fuel) an order that is p-maximal at every prime and is the maximal order (every lattice closed '
          'under multiplication that contains it is equal to it). Earlier waves: the loop structure and exit '
          'condition of the driver, index(new, old) = p^howmany for every step on a stored basis, containment of the input order in every '
@@ -154,14 +169,13 @@ CLAIM = dict(
          '(conditionally on integrality of the intermediate discriminants) absence of u64 underflow; and for the Round 2 step itself: the '
          'lattices it computes (I_p = kernel of the linearised power map = the p-radical { x : x^pow = 0 mod p }, an ideal; U_p = its p-fold '
          'multiplier lattice), that the step maps orders to orders (contains 1, closed under multiplication: get_mult_table returns on the '
-         'result) and cannot panic or run out of fuel on an order at a prime, hence that the driver returns an order and can only panic outside one_step (for monic f '
-         'unconditionally; for non-monic f conditionally on the starting order being a ring, a flag the model computes). The model (coq/Model/Round2.v on '
+         'result) and cannot panic or run out of fuel on an order at a prime, hence that the driver returns an order and can only panic outside one_step '
+         '(unconditionally, for monic and non-monic f). The model (coq/Model/Round2.v on '
          'top of Hnf.v, LinAlg.v, Order.v, Algebraic.v, Resultant.v, Elementary.v) reproduces the driver and the Round 2 step statement by '
          'statement (tables mod p and p^2 with truncating %, Frobenius power, I_p and U_p through HNF::new(HNF::kernel(.)) with row '
          'truncation, assertions, u64 exponent bookkeeping); it is tied to /repo by running the extracted model and impl_svc (library, '
          'one_step through the access wrapper, and the CLI) on the same inputs.',
-    note='NOT proved: that the starting order of a non-monic f is a ring (proved for monic f; hence the driver theorems are for monic f), '
-         'independence of the generator, identification of the maximal order with the integral closure; these clauses are checked on every explored input by an independent oracle (ring axioms, '
+    note='NOT proved: independence of the generator, identification of the maximal order with the integral closure; these clauses are checked on every explored input by an independent oracle (ring axioms, '
          'discriminant by formula / trace form / closed forms of quadratic, pure cubic, cyclotomic, biquadratic fields, p-maximality by '
          'the Dedekind criterion and by an own multiplier-ring test, equal discriminants across changes of generator).',
     ref='DESIGN.md section 4, C06')
